@@ -298,3 +298,9 @@ func numLess(a, b constant.Value) bool {
 }
 
 func allocName(s *px.Sym) string { return px.AllocName(s) }
+
+// isConstSym: the sym is a literal/named constant (not merely known to equal one on this path).
+func isConstSym(s *px.Sym) bool {
+	s = s.Strip(true)
+	return s != nil && s.Kind == px.KConst
+}
